@@ -430,6 +430,49 @@ pub fn public_runtime_labels(src: &str, file_path: &str, fuel: u64, max_depth: u
     }
 }
 
+/// (appended, round 16) the report of the public pipeline for a program whose run ends in a runtime error: for each
+/// label the text the attached source yields for the labelled span (None when the span cannot be read from it)
+pub fn public_runtime_label_texts(src: &str, file_path: &str, fuel: u64, max_depth: u32) -> Option<Vec<(usize, usize, Option<String>)>> {
+    let path = PathBuf::from(file_path);
+    let _g = ImplGuard::enter();
+    let r = catch_unwind(AssertUnwindSafe(|| {
+        let lexed = ApLang::new(src.to_string(), Some(path.clone())).lex().ok()?;
+        let parsed = lexed.parse().ok()?;
+        aplang_lib::verif::sink_install();
+        aplang_lib::verif::set_limits(Some(fuel), max_depth);
+        let res = parsed.execute();
+        let _ = aplang_lib::verif::sink_take();
+        aplang_lib::verif::set_limits(None, u32::MAX);
+        match res {
+            Ok(_) => None,
+            Err(report) => {
+                let mut out = vec![];
+                if let Some(labels) = report.labels() {
+                    for l in labels {
+                        let text = report.source_code().and_then(|sc| sc.read_span(l.inner(), 0, 0).ok()).map(|c| {
+                            let data = c.data();
+                            let start = l.offset().saturating_sub(c.span().offset()).min(data.len());
+                            let end = (start + l.len()).min(data.len());
+                            String::from_utf8_lossy(&data[start..end]).to_string()
+                        });
+                        out.push((l.offset(), l.len(), text));
+                    }
+                }
+                Some(out)
+            }
+        }
+    }));
+    match r {
+        Ok(v) => v,
+        Err(_) => {
+            let _ = aplang_lib::verif::sink_take();
+            aplang_lib::verif::set_limits(None, u32::MAX);
+            let _ = take_panic_msg();
+            None
+        }
+    }
+}
+
 /// run a source through the real lexer, parser and interpreter in this thread
 pub fn run_impl(src: &str, file_path: &str, fuel: u64, max_depth: u32) -> RunRec {
     let path = PathBuf::from(file_path);
